@@ -12,6 +12,8 @@ PROP = {'drive': ['Shape'],
                        'C07_no_panic_nested_mergefree',
                        'C07_no_panic',
                        'C07_no_panic_history',
+                       'C07_reader_delivers_shape',
+                       'C07_no_panic_reader',
                        'C07_unguarded_panics'],
  'areas': [('shape', 70000, 1750000)],
  'rule': 'distinct case lines (lookup list, GDEF, lookup indices, history of 1-5 glyph sequences); '
@@ -27,7 +29,8 @@ PROP = {'drive': ['Shape'],
          'subtables whose count field is smaller / larger than the coverage table next to it for GSUB 1.2 2.1 3.1 '
          '4.1, GPOS 1.2 2.1 3.1 4.1 (mark, base) 6.1 (mark1, mark2), contexts 1/2 and chained 1/2, read from bytes '
          'and applied to all ordered pairs of the covered glyphs, last covered first (128)',
- 'partial': ['C07_no_panic is proved in full for every lookup list in the shape the reader delivers '
+ 'partial': ['C07_no_panic is proved in full for every lookup list in the shape the reader delivers, and that shape is '
+             'proved for the images of the modelled subtable readers (C07_reader_delivers_shape, C07_no_panic_reader) '
              '(readerShapedLL = coverage indices inside the indexed arrays, context format 3 and chained context '
              'format 3 with at least one input coverage, no nil pair-adjustment pointer, no unimplemented value '
              'field): all six contextual formats, nested and self-referential, nested insertions and nested '
@@ -54,15 +57,22 @@ PROP = {'drive': ['Shape'],
                            'fresh lists; after repair #11 no two live slices share a backing array'],
  'assumptions': ['the model mirrors the code as repaired for DESIGN 9 #11 #12 #13 #14(a,b) #15 #33; '
                  'corpus/C07/defects.case keeps the inputs that failed before the repairs',
-                 'TIE OF THE HYPOTHESIS TO THE READER: that gtab.Read only delivers lists inside readerShapedLL is NOT a '
-                 'theorem of C07; it is checked on the real reader by the direct stream shape.readsafe (bytes -> '
-                 'gtab.Read -> documented subtable types only -> Apply twice without panic; families: mutated tables, '
-                 'extension lookups incl. extension->extension, count field vs coverage size for every subtable with a '
-                 'pruned coverage) and by the statistic "class of reader-delivered lists". The pruning step itself has '
-                 'its post-condition proved in the C02 reader models (Proofs/TotalGposSub.prune_ok: after pruning every '
-                 'coverage index is below the number of records kept; Proofs/TotalGsubSub.pruneStep_spec; '
-                 'Proofs/TotalChainCtx.prune1_ok / covOk_prune), but no theorem composes these into Subtable.guarded '
-                 'for every reader and those models are themselves tied to the Go readers by correspondence',
+                 'TIE OF THE HYPOTHESIS TO THE READER: readerShapedLL is now DISCHARGED, not assumed, for subtables that come '
+                 'out of the modelled readers: C07_reader_delivers_shape proves guarded and chain3Ok for the image of '
+                 'every value the C08 reader models return on ANY accepted byte string (readGsub1_1 1_2 2_1 3_1 4_1 8_1, '
+                 'readSeqContext1/2/3, readChainedSeqContext1/2/3, readGpos1_1 1_2 3_1 4_1 6_1), from the C08 '
+                 'post-conditions C08_reader_cov_in_range_* (Proofs/OtlCovRange: every coverage index below the length of '
+                 'the array it indexes) plus two lemmas proved here (read3/readC3 reject an empty input); '
+                 'C07_no_panic_reader composes it with C07_no_panic_history. Contexts 2 / chained 2 need nothing '
+                 '(rule sets are indexed by class under a guard), context 3 / chained 3 only the non-empty input. STILL '
+                 'ASSUMED: (i) GPOS 2.1 / 2.2 are not in FromReader (no coverage-indexed array in the engine model: the pair '
+                 'map / class rows are guarded; needed are non-nil *PairAdjust, which the Go readers allocate, and '
+                 'implemented value fields); (ii) value records use implemented fields only (vrImpl / valueOk, the '
+                 'exclusion in the property text); (iii) the C08 reader models are tied to the Go readers by C08 '
+                 'correspondence streams, and the translation C08 value -> engine Subtable (Proofs/ShapeReader.lean, '
+                 'field by field) is not itself cross-checked against the harness serialisation except through the '
+                 'direct stream shape.readsafe (bytes -> gtab.Read -> Apply twice, no panic), which stays as the check '
+                 'of the real reader incl. extension lookups and count-vs-coverage mismatches',
                  'readerShapedLL (hypothesis of C07_no_panic): coverage indices inside the indexed arrays '
                  '(established by the reader through cov.Prune), context format 3 and chained context format 3 with '
                  'at least one input coverage (reader rejects 0), no nil *PairAdjust, no value record with an '
